@@ -20,6 +20,9 @@
   stops at the blank line whatever the reply's fields say (the former parameter `replyBody` is gone)
   and `c03_down_delivered_prefix` holds at full strength, with no hypothesis about the reply.
 
+  Section I is about the clock of the grace period (`TState`, `tstep`, `trun` of `Model/C03.lean`): when
+  the timer is started, when it may and when it must fire, and that it is cancelled.
+
   Bytes used in the examples: 72 = 'H' (head), 82 = 'R' (reply head), payload bytes 1 … 9.
 -/
 import FwdVerif.Lemmas.C03
@@ -497,6 +500,298 @@ example : RecarryAll .down exSteps exStepsRecarried := by
 example : ∃ s s', run exCfg exSteps = some s ∧ run exCfg exStepsRecarried = some s' ∧
     s'.up = s.up ∧ s.up.delivered = [1, 2, 3, 4] ∧ s.down.delivered = [7, 8, 9] ∧
     s'.down.delivered = [1, 2, 3] := ⟨_, _, rfl, rfl, by decide⟩
+
+/-! ## I. The clock of the grace period
+
+  `Model/C03.lean` `TState` / `tstep`: the machine above with a clock.  The timer of
+  `gracefulCloseAfter` is started at the instant the first copier returns (`armedAt`), `graceExpire`
+  is enabled exactly from `armedAt + period` on and only while the second copier has not returned, and
+  a pending timer does not stay unfired beyond `armedAt + period + slack` (`slack` = the runtime's
+  latitude, a parameter).  Every theorem quantifies over every timed schedule: any placement of the
+  ticks among the steps of the endpoints and the copiers, any run length. -/
+
+/-- period 10, forced close at most 2 late -/
+def exT : Timing := { period := 10, slack := 2 }
+
+/-- the client half-closes at instant 3 (`eof .up` starts the timer), the target keeps sending at 7 and
+    14, the timer fires at 14 ∈ [13, 15] -/
+def exTSteps : List TStep :=
+  (exSteps.take 9).map .act ++
+    [.tick 3, .act (.fin .up), .act (.copy .up 2), .act (.eof .up), .tick 4, .act (.targetWrite [9]),
+     .act (.copy .down 1), .tick 7, .act (.targetWrite [5]), .act .graceExpire]
+
+/-- the clock only restricts: a timed run, its ticks erased, is a run of the untimed machine, so
+    every theorem above holds of the states the timed machine reaches -/
+theorem c03_timer_run_is_untimed_run {c : Cfg} {τ : Timing} {steps : List TStep} {t : TState}
+    (h : trun c τ steps = some t) : run c (erase steps) = some t.s :=
+  trun_erase h
+
+example : ∃ t, trun exCfg exT exTSteps = some t ∧ t.now = 14 ∧ t.armedAt = some 3 ∧ t.expiredAt = some 14 ∧
+    t.s.expired = true ∧ t.s.closedC = true ∧ t.s.closedT = true ∧ t.s.down.delivered = [7, 8, 9] :=
+  ⟨_, rfl, by decide⟩
+
+/-- whatever the clock does — forced close included — what each endpoint has received is a prefix
+    of what the other one wrote after its head -/
+theorem c03_timer_delivered_prefix {c : Cfg} {τ : Timing} {steps : List TStep} {t : TState}
+    (h : trun c τ steps = some t) :
+    t.s.up.delivered <+: stream c t.s .up ∧ (c.replyExact → t.s.down.delivered <+: stream c t.s .down) :=
+  ⟨c03_up_delivered_prefix (trun_erase h), fun hc => c03_down_delivered_prefix (trun_erase h) hc⟩
+
+example : ∃ t, trun exCfg exT exTSteps = some t ∧ t.s.expired = true ∧
+    t.s.down.delivered = [7, 8, 9] ∧ stream exCfg t.s .down = [7, 8, 9, 5] := ⟨_, rfl, by decide⟩
+
+/-- the forced close delivers nothing and takes nothing back: the bytes delivered before it are
+    the bytes delivered after it, still a prefix of what was sent; only what the proxy had not yet
+    moved (here: `avail`) is cut off -/
+theorem c03_timer_forced_close_keeps_delivered {c : Cfg} {τ : Timing} {steps : List TStep} {t t' : TState}
+    (h : trun c τ steps = some t) (hx : tstep c τ t (.act .graceExpire) = some t') :
+    t'.s.up.delivered = t.s.up.delivered ∧ t'.s.down.delivered = t.s.down.delivered ∧
+      t'.s.up.delivered <+: stream c t'.s .up ∧ (c.replyExact → t'.s.down.delivered <+: stream c t'.s .down) ∧
+      t'.s.up.eof = t.s.up.eof ∧ t'.s.down.eof = t.s.down.eof := by
+  have h' : trun c τ (steps ++ [.act .graceExpire]) = some t' := trun_snoc h hx
+  rcases tstep_cases hx with ⟨n, hn, _⟩ | ⟨_, _, s', hs, rfl⟩ | ⟨u, hu, hne, _⟩
+  · exact absurd hn (by simp)
+  · have sp := step_graceExpire_spec hs
+    have pf := c03_timer_delivered_prefix h'
+    exact ⟨sp.2.2.2.2.2.2.2.1, sp.2.2.2.2.2.2.2.2.1, pf.1, pf.2, sp.2.2.2.2.2.2.2.2.2.2.2.1,
+      sp.2.2.2.2.2.2.2.2.2.2.2.2⟩
+  · have := TStep.act.inj hu
+    exact absurd this.symm hne
+
+example : ∃ t t', trun exCfg exT (exTSteps.take 18) = some t ∧ t.s.down.avail = 1 ∧
+    tstep exCfg exT t (.act .graceExpire) = some t' ∧ t'.s.down.delivered = t.s.down.delivered :=
+  ⟨_, _, rfl, by decide, rfl, by decide⟩
+
+/-- NO FORCED CLOSE BEFORE `first finish + period`: if the timer has fired, it had been started at
+    some instant `a` (the first finish, `c03_timer_armed_at_first_finish`) and it fired at an instant
+    `e` with `a + period ≤ e ≤ a + period + slack` -/
+theorem c03_timer_no_forced_close_before_deadline {c : Cfg} {τ : Timing} {steps : List TStep} {t : TState}
+    (h : trun c τ steps = some t) (he : t.s.expired = true) :
+    ∃ a e, t.armedAt = some a ∧ t.expiredAt = some e ∧ a + τ.period ≤ e ∧ e ≤ a + τ.period + τ.slack ∧
+      e ≤ t.now := by
+  have hi := tinv_run h
+  have hs : t.expiredAt.isSome = true := by rw [hi.expAt]; exact he
+  obtain ⟨e, hee⟩ := Option.isSome_iff_exists.mp hs
+  obtain ⟨a, h1, h2, h3, h4⟩ := hi.expWin e hee
+  exact ⟨a, e, h1, hee, h2, h3, h4⟩
+
+example : ∃ t, trun exCfg exT exTSteps = some t ∧ t.s.expired = true ∧ t.armedAt = some 3 ∧
+    t.expiredAt = some 14 := ⟨_, rfl, by decide⟩
+
+/-- … and one tick earlier the expiry is not a step of the machine -/
+example : trun exCfg exT ((exSteps.take 9).map .act ++
+    [.tick 3, .act (.fin .up), .act (.copy .up 2), .act (.eof .up), .tick 9, .act .graceExpire]) = none := by
+  decide
+
+/-- the expiry is enabled EXACTLY when the timer has been started, the period has elapsed since,
+    and not both directions have finished -/
+theorem c03_timer_expiry_enabled_iff {c : Cfg} {τ : Timing} {steps : List TStep} {t : TState}
+    (h : trun c τ steps = some t) :
+    (tstep c τ t (.act .graceExpire)).isSome = true ↔
+      ∃ a, t.armedAt = some a ∧ a + τ.period ≤ t.now ∧ ¬ (t.s.up.done = true ∧ t.s.down.done = true) := by
+  have hi := tinv_run h
+  constructor
+  · intro hx
+    obtain ⟨t', ht'⟩ := Option.isSome_iff_exists.mp hx
+    rcases tstep_cases ht' with ⟨n, hn, _⟩ | ⟨_, hd, s', hs, _⟩ | ⟨u, hu, hne, _⟩
+    · exact absurd hn (by simp)
+    · have sp := step_graceExpire_spec hs
+      have hsome : t.armedAt.isSome = true := by rw [hi.armed]; exact sp.2.1
+      obtain ⟨a, ha⟩ := Option.isSome_iff_exists.mp hsome
+      refine ⟨a, ha, ?_, ?_⟩
+      · simp only [TState.due, ha, decide_eq_true_eq] at hd
+        exact hd
+      · intro hb
+        have := hi.inv.closedIff.mpr hb
+        rw [sp.1] at this
+        exact absurd this (by decide)
+    · have := TStep.act.inj hu
+      exact absurd this.symm hne
+  · intro ⟨a, ha, hdue, hnb⟩
+    have hg : t.s.grace = true := by rw [← hi.armed, ha]; rfl
+    have hnc : t.s.phase ≠ .closed := fun hc => hnb (hi.inv.closedIff.mp hc)
+    obtain ⟨s', hs⟩ := step_graceExpire_enabled (c := c) (phase_tunnel_of_grace hi.inv hg hnc) hg
+    simp only [tstep, if_pos, TState.due, ha, decide_eq_true hdue, hs]
+    rfl
+
+example : ∃ t, trun exCfg exT (exTSteps.take 18) = some t ∧ t.now = 14 ∧
+    (tstep exCfg exT t (.act .graceExpire)).isSome = true := ⟨_, rfl, by decide⟩
+
+/-- THE TIMER IS NOT STARTED AT TUNNEL START: as long as neither destination has been shown
+    end-of-stream — after any number of steps and any amount of time — no timer runs, nothing is or
+    can be closed by force, both sockets are open, and time passes freely: a tunnel that is merely
+    long-lived is never cut -/
+theorem c03_timer_not_started_before_first_finish {c : Cfg} {τ : Timing} {steps : List TStep} {t : TState}
+    (h : trun c τ steps = some t) (hu : t.s.up.eof = false) (hd : t.s.down.eof = false) :
+    t.armedAt = none ∧ t.expiredAt = none ∧ t.s.expired = false ∧ t.s.closedC = false ∧ t.s.closedT = false ∧
+      tstep c τ t (.act .graceExpire) = none ∧
+      ∀ n, tstep c τ t (.tick n) = some { t with now := t.now + n } := by
+  have hi := tinv_run h
+  have hne : t.s.expired = false := by
+    cases he : t.s.expired
+    · rfl
+    · rcases hi.inv.expiredEof he with e | e
+      · rw [hu] at e; exact absurd e (by decide)
+      · rw [hd] at e; exact absurd e (by decide)
+  have hud : t.s.up.done = false := by
+    cases hx : t.s.up.done
+    · rfl
+    · rcases hi.inv.doneUp hx with e | e
+      · rw [hu] at e; exact absurd e (by decide)
+      · rw [hne] at e; exact absurd e (by decide)
+  have hdd : t.s.down.done = false := by
+    cases hx : t.s.down.done
+    · rfl
+    · rcases hi.inv.doneDown hx with e | e
+      · rw [hd] at e; exact absurd e (by decide)
+      · rw [hne] at e; exact absurd e (by decide)
+  have hg : t.s.grace = false := by
+    cases hx : t.s.grace
+    · rfl
+    · rcases hi.inv.grace.mp hx with e | e
+      · rw [hud] at e; exact absurd e (by decide)
+      · rw [hdd] at e; exact absurd e (by decide)
+  have ha : t.armedAt = none := by
+    have := hi.armed
+    rw [hg] at this
+    cases hx : t.armedAt
+    · rfl
+    · rw [hx] at this; simp at this
+  have hea : t.expiredAt = none := by
+    have := hi.expAt
+    rw [hne] at this
+    cases hx : t.expiredAt
+    · rfl
+    · rw [hx] at this; simp at this
+  have hopen := c03_grace_period_keeps_open (trun_erase h) hne (Or.inl hu)
+  refine ⟨ha, hea, hne, hopen.1, hopen.2, ?_, ?_⟩
+  · simp only [tstep, if_pos, TState.due, ha]
+    rfl
+  · intro n
+    simp only [tstep, TState.blocked, ha]
+    rfl
+
+/-- both directions alive and trickling for 1000 periods: nothing happens to the tunnel -/
+example : ∃ t, trun exCfg exT ((exSteps.take 8).map .act ++
+      [.tick 5000, .act (.clientWrite [4]), .act (.copy .up 2), .tick 5000, .act (.targetWrite [9]),
+       .act (.copy .down 1)]) = some t ∧
+    t.now = 10000 ∧ t.s.up.eof = false ∧ t.s.down.eof = false ∧ t.armedAt = none ∧ t.s.phase = .tunnel ∧
+    t.s.up.delivered = [1, 2, 3, 4] ∧ t.s.down.delivered = [7, 8, 9] := ⟨_, rfl, by decide⟩
+
+/-- THE TIMER IS STARTED AT THE FIRST FINISH, ONCE: the step that shows the first end-of-stream
+    starts it with the current instant, and nothing that happens later moves it — the deadline of a
+    tunnel is relative to its own first finish (each tunnel is its own machine with its own
+    `armedAt`; in `bicopy` the timer goroutine and its context are per call) -/
+theorem c03_timer_armed_at_first_finish {c : Cfg} {τ : Timing} {steps more : List TStep} {t t' t'' : TState}
+    {d : Dir} (h : trun c τ steps = some t) (hu : t.s.up.eof = false) (hd : t.s.down.eof = false)
+    (hx : tstep c τ t (.act (.eof d)) = some t') (hm : trunFrom c τ t' more = some t'') :
+    t'.armedAt = some t.now ∧ t''.armedAt = some t.now := by
+  have ha := (c03_timer_not_started_before_first_finish h hu hd).1
+  have first : t'.armedAt = some t.now := by
+    rcases tstep_cases hx with ⟨n, hn, _⟩ | ⟨hn, _⟩ | ⟨u, hu', _, s', hs, rfl⟩
+    · exact absurd hn (by simp)
+    · exact absurd (TStep.act.inj hn) (by simp)
+    · have hud := TStep.act.inj hu'
+      subst hud
+      have sp := step_eof_spec hs
+      have hg : s'.grace = true := by
+        apply (inv_step (tinv_run h).inv hs).grace.mpr
+        cases d
+        · exact Or.inl sp.1
+        · exact Or.inr sp.1
+      simp only [TState.moved, ha, hg, if_true]
+  exact ⟨first, trunFrom_armed_stable first hm⟩
+
+example : ∃ t t', trun exCfg exT (exTSteps.take 12) = some t ∧ t.now = 3 ∧ t.armedAt = none ∧
+    trunFrom exCfg exT t (exTSteps.drop 12) = some t' ∧ t'.now = 14 ∧ t'.armedAt = some 3 :=
+  ⟨_, _, rfl, by decide, by decide, rfl, by decide⟩
+
+/-- THE TIMER IS CANCELLED WHEN BOTH FINISH: once both destinations have been shown end-of-stream
+    (whether before the deadline or, the timer not having fired yet, within the slack after it)
+    both sockets are closed at once and no forced close ever happens afterwards, however long one
+    waits -/
+theorem c03_timer_cancelled_when_both_finish {c : Cfg} {τ : Timing} {steps more : List TStep} {t t' : TState}
+    (h : trun c τ steps = some t) (hu : t.s.up.eof = true) (hd : t.s.down.eof = true)
+    (hm : trunFrom c τ t more = some t') :
+    t.s.closedC = true ∧ t.s.closedT = true ∧ t'.s.expired = false ∧ t'.expiredAt = none ∧
+      t'.s.closedC = true ∧ t'.s.closedT = true ∧ tstep c τ t' (.act .graceExpire) = none ∧
+      ∀ n, tstep c τ t' (.tick n) = some { t' with now := t'.now + n } := by
+  have hi := tinv_run h
+  have hcl := c03_both_finished_closed (trun_erase h) hu hd
+  have hph : t.s.phase = .closed := hi.inv.closedC.mp hcl.1
+  have hi' := tinv_runFrom hi hm
+  have hc' := runFrom_closed hph (trunFrom_erase hm)
+  have hne : t'.s.expired = false := by rw [hc'.2]; exact hcl.2.2
+  have hea : t'.expiredAt = none := by
+    have := hi'.expAt
+    rw [hne] at this
+    cases hx : t'.expiredAt
+    · rfl
+    · rw [hx] at this; simp at this
+  refine ⟨hcl.1, hcl.2.1, hne, hea, hi'.inv.closedC.mpr hc'.1, hi'.inv.closedT.mpr hc'.1, ?_, ?_⟩
+  · cases hx : tstep c τ t' (.act .graceExpire) with
+    | none => rfl
+    | some t'' =>
+      rcases tstep_cases hx with ⟨n, hn, _⟩ | ⟨_, _, s', hs, _⟩ | ⟨u, hu', hne', _⟩
+      · exact absurd hn (by simp)
+      · have := (step_graceExpire_spec hs).1
+        rw [hc'.1] at this
+        exact absurd this (by decide)
+      · exact absurd (TStep.act.inj hu').symm hne'
+  · intro n
+    have hb : t'.blocked τ n = false := by
+      simp only [TState.blocked]
+      split
+      · simp [hc'.1]
+      · rfl
+    simp only [tstep, hb]
+    rfl
+
+/-- both finish at instants 3 and 7, well before 3 + 10; a long time later still no forced close -/
+example : ∃ t, trun exCfg exT ((exSteps.take 9).map .act ++
+      [.tick 3, .act (.fin .up), .act (.copy .up 2), .act (.eof .up), .tick 4, .act (.targetWrite [9]),
+       .act (.copy .down 1), .act (.fin .down), .act (.eof .down), .tick 100000]) = some t ∧
+    t.s.up.eof = true ∧ t.s.down.eof = true ∧ t.s.expired = false ∧ t.expiredAt = none ∧ t.now = 100007 ∧
+    t.s.closedC = true := ⟨_, rfl, by decide⟩
+
+/-- AFTER THE DEADLINE THE MACHINE CANNOT STAY OPEN: while one direction has finished and the other
+    has not, the timer runs (`armedAt = some a`); time cannot pass beyond `a + period + slack`
+    without the expiry; from `a + period` on the expiry is enabled and closes both sockets; before
+    `a + period` it is not a step of the machine -/
+theorem c03_timer_deadline_forces_close {c : Cfg} {τ : Timing} {steps : List TStep} {t : TState} {d : Dir}
+    (h : trun c τ steps = some t) (hd : (t.s.pipe d).done = true) (ho : (t.s.pipe d.other).done = false) :
+    ∃ a, t.armedAt = some a ∧ a ≤ t.now ∧ t.now ≤ a + τ.period + τ.slack ∧
+      (∀ n, a + τ.period + τ.slack < t.now + n → tstep c τ t (.tick n) = none) ∧
+      (a + τ.period ≤ t.now → ∃ t', tstep c τ t (.act .graceExpire) = some t' ∧ t'.s.expired = true ∧
+        t'.s.closedC = true ∧ t'.s.closedT = true ∧ t'.expiredAt = some t.now) ∧
+      (t.now < a + τ.period → tstep c τ t (.act .graceExpire) = none) := by
+  have hi := tinv_run h
+  have hph := (c03_half_close_other_direction_flows (trun_erase h) hd ho).1
+  have hg : t.s.grace = true := by
+    apply hi.inv.grace.mpr
+    cases d
+    · exact Or.inl hd
+    · exact Or.inr hd
+  have hsome : t.armedAt.isSome = true := by rw [hi.armed]; exact hg
+  obtain ⟨a, ha⟩ := Option.isSome_iff_exists.mp hsome
+  refine ⟨a, ha, hi.armedLe a ha, hi.bound a ha hph, ?_, ?_, ?_⟩
+  · intro n hn
+    simp only [tstep, TState.blocked, ha, hph, decide_true, Bool.true_and, decide_eq_true hn, if_true]
+  · intro hdue
+    obtain ⟨s', hs⟩ := step_graceExpire_enabled (c := c) hph hg
+    have sp := step_graceExpire_spec hs
+    refine ⟨{ t with s := s', expiredAt := some t.now }, ?_, sp.2.2.2.1, sp.2.2.2.2.2.1, sp.2.2.2.2.2.2.1, rfl⟩
+    simp only [tstep, if_pos, TState.due, ha, decide_eq_true hdue, hs]
+  · intro hlt
+    have : ¬ a + τ.period ≤ t.now := by omega
+    simp only [tstep, if_pos, TState.due, ha, decide_eq_false this]
+    rfl
+
+/-- at instant 14 the deadline 13 has passed: two more ticks are not possible, the expiry is -/
+example : ∃ t, trun exCfg exT (exTSteps.take 18) = some t ∧ t.now = 14 ∧ t.s.up.done = true ∧
+    t.s.down.done = false ∧ tstep exCfg exT t (.tick 2) = none ∧
+    (tstep exCfg exT t (.tick 1)).isSome = true ∧ (tstep exCfg exT t (.act .graceExpire)).isSome = true :=
+  ⟨_, rfl, by decide⟩
 
 end C03
 end FwdVerif
